@@ -3,6 +3,7 @@
 package pt
 
 import (
+	"encoding/json"
 	"fmt"
 	"math/big"
 	"sync"
@@ -390,6 +391,11 @@ func apply(e *secp256k1.Element, st Step, cur ref.Point) (*secp256k1.Element, er
 		_ = e.EncodeUncompressed()
 		_ = e.IsIdentity()
 		_ = e.Equal(secp256k1.Base())
+		// formatting and generic marshalling go through whatever interfaces the type implements (Stringer, Formatter,
+		// TextMarshaler, json.Marshaler ...): printing a value in a log line must not change it either
+		_ = fmt.Sprintf(observeVerbs, e, e, e, e, e)
+		_ = fmt.Sprint(e, *e)
+		_, _ = json.Marshal(e)
 		return e, nil
 	case "structcopy":
 		// a Go-level copy by struct assignment, then the original is changed: the copy must be independent
@@ -462,6 +468,9 @@ func Build(s Spec) (*Built, error) {
 }
 
 // ---------------------------------------------------------------------------------------------------
+
+// observeVerbs are the formatting verbs the observe step prints an element with (a variable, so that vet does not mind %s).
+var observeVerbs = "%v %+v %s %x %d"
 
 var (
 	stepsAny  = []string{"addO", "Oadd", "subO", "addsub", "subadd", "dblsub", "negneg", "decenc", "decunc", "selfdec", "selfdecunc", "copy", "set", "structcopy", "observe", "observe", "rescale", "rescale", "target", "target"}
